@@ -6,6 +6,7 @@ CONSTANTS
   MaxStat = 2
   DefaultLimit = 2
   MaxEnum = 4
+  Deviations = {}
   MaxWireLimit = 5
 INVARIANTS TypeOK PagingTheorem PageShape WirePagingTheorem ContinueIffFull LongPollImmediate StatBatchTheorem GetLength RangeAgreesWithSubFetch
 PROPERTIES WireRefinesMap
